@@ -1781,7 +1781,7 @@ package otto
 // ('f') exactly for 1e-6 <= |x| < 1e21, the exponent layout ('g') otherwise.  The digits
 // are strconv's (shortest round-trip, assumed) and are not specified here.
 //@ func floatToString
-//@   props C06
+//@   props C06 C05
 //@   safety C02 C06
 //@   nothrow
 //@   pure
@@ -1957,3 +1957,70 @@ package otto
 //@   at_call calculateLessThan : comparator == token.LESS_OR_EQUAL ==> arg0 == right && arg1 == left && !arg2
 //@   at_call calculateLessThan : comparator == token.GREATER_OR_EQUAL ==> arg0 == left && arg1 == right && arg2
 //@   calls calculateLessThan(_, _, _) when comparator == token.LESS || comparator == token.GREATER || comparator == token.LESS_OR_EQUAL || comparator == token.GREATER_OR_EQUAL
+
+// ---------------------------------------------------------------------------
+// character-set tables kept as regular expressions (C05, C06, C10, C13)
+// ---------------------------------------------------------------------------
+// Each pattern below is DERIVED from the specification; the obligation is that the package
+// variable is initialised from exactly this text by its initialiser and never assigned again.
+
+// 9.3.1 StringNumericLiteral: a HexIntegerLiteral is 0x / 0X followed by hex digits and
+// carries NO sign (signs belong to StrDecimalLiteral only), so the routing test for the hex
+// path matches only at the very start of the trimmed text.
+//@ initarg[C05,C06] stringToNumberParseInteger = `^(?:0[xX])`
+
+// 9.8.1 step 6-10: the exponent is written without leading zeros (strconv pads to two).
+//@ initarg[C06] matchLeading0Exponent = `([eE][\+\-])0+([1-9])`
+
+// 15.1.3.3 encodeURI leaves uriReserved ; / ? : @ & = + $ ,  and uriUnescaped (alphanumerics
+// and - _ . ! ~ * ' ( ) ) and # unescaped.  Characters outside the class below are passed to
+// url.QueryEscape, which itself leaves alphanumerics and - _ . ~ alone; so the class is the
+// remaining 17 characters ; / ? : @ & = + $ , ! ~ * ' ( ) #.
+//@ initarg[C13] encodeURIRegexp = `([^~!@#$&*()=:/,;?+'])`
+// 15.1.3.4 encodeURIComponent leaves only uriUnescaped: beyond QueryEscape's own set that is ! ~ * ' ( ).
+//@ initarg[C13] encodeURIComponentRegexp = `([^~!*()'])`
+// 15.1.3.1 decodeURI does not decode escapes of uriReserved plus #: ; / ? : @ & = + $ , #
+// = 3B 2F 3F 3A 40 26 3D 2B 24 2C 23, hexadecimal digits in either case.
+//@ initarg[C13] decodeURIGuard = `(?i)(?:%)(3B|2F|3F|3A|40|26|3D|2B|24|2C|23)`
+
+// 15.5.4.11 replacement text: $$ $& $` $' $n (n = 1..9) $nn (nn = 01..99).
+//@ initarg[C10] builtinStringReplaceRegexp = `\$(?:[\$\&\'\`1-9]|0[1-9]|[1-9][0-9])`
+
+// Math.min / Math.max (15.8.2.11-12) of two numbers: NaN if either is NaN, otherwise the
+// smaller / larger, with -0 smaller than +0.  (The general n-ary case is the same step
+// folded over the arguments; it is proved here for the first two, which fixes the step.)
+//@ spec es5Min2(a float64, b float64) float64 = ite(a < b, a, ite(b < a, b, ite(signbit(a), a, b)))
+//@ spec es5Max2(a float64, b float64) float64 = ite(a > b, a, ite(b > a, b, ite(signbit(a), b, a)))
+//@ func builtinMathMin
+//@   props C13
+//@   safety C02 C13
+//@   unfold numOf
+//@   requires len(call.ArgumentList) <= 2 && (len(call.ArgumentList) >= 1 ==> isGoNumber(call.ArgumentList[0]) && jsValue(call.ArgumentList[0])) && (len(call.ArgumentList) >= 2 ==> isGoNumber(call.ArgumentList[1]) && jsValue(call.ArgumentList[1]))
+//@   stable call.ArgumentList
+//@   pure_calls (Value).float64
+//@   invariant@1 !isNaN(result) && ($i == -1 ==> sameFloat(result, numOf(call.ArgumentList[0]))) && ($i == 0 ==> !isNaN(numOf(call.ArgumentList[1])) && sameFloat(result, es5Min2(numOf(call.ArgumentList[0]), numOf(call.ArgumentList[1]))))
+//@   ensures len(call.ArgumentList) == 2 && (isNaN(numOf(call.ArgumentList[0])) || isNaN(numOf(call.ArgumentList[1]))) ==> isNaN(numOf(result))
+//@   ensures len(call.ArgumentList) == 2 && !isNaN(numOf(call.ArgumentList[0])) && !isNaN(numOf(call.ArgumentList[1])) ==> isGoNumber(result) && sameFloat(numOf(result), es5Min2(numOf(call.ArgumentList[0]), numOf(call.ArgumentList[1])))
+//@ func builtinMathMax
+//@   props C13
+//@   safety C02 C13
+//@   unfold numOf
+//@   requires len(call.ArgumentList) <= 2 && (len(call.ArgumentList) >= 1 ==> isGoNumber(call.ArgumentList[0]) && jsValue(call.ArgumentList[0])) && (len(call.ArgumentList) >= 2 ==> isGoNumber(call.ArgumentList[1]) && jsValue(call.ArgumentList[1]))
+//@   stable call.ArgumentList
+//@   pure_calls (Value).float64
+//@   invariant@1 !isNaN(result) && ($i == -1 ==> sameFloat(result, numOf(call.ArgumentList[0]))) && ($i == 0 ==> !isNaN(numOf(call.ArgumentList[1])) && sameFloat(result, es5Max2(numOf(call.ArgumentList[0]), numOf(call.ArgumentList[1]))))
+//@   ensures len(call.ArgumentList) == 2 && (isNaN(numOf(call.ArgumentList[0])) || isNaN(numOf(call.ArgumentList[1]))) ==> isNaN(numOf(result))
+//@   ensures len(call.ArgumentList) == 2 && !isNaN(numOf(call.ArgumentList[0])) && !isNaN(numOf(call.ArgumentList[1])) ==> isGoNumber(result) && sameFloat(numOf(result), es5Max2(numOf(call.ArgumentList[0]), numOf(call.ArgumentList[1])))
+
+// encodeURI / encodeURIComponent (15.1.3, Encode): code units are combined exactly as UTF-16
+// prescribes - a lone low surrogate, or a high surrogate not followed by a low surrogate, is
+// a URIError; a pair denotes (hi - 0xD800) * 0x400 + (lo - 0xDC00) + 0x10000; any other unit
+// denotes itself - and every index into the code-unit array is in bounds.
+//@ func encodeDecodeURI
+//@   props C13
+//@   safety C02 C13
+//@   requires wfCall(call) && argsOK(call.ArgumentList) && call.runtime != nil && escape != nil
+//@   stable call.ArgumentList
+//@   invariant@1 0 <= index && length == len(input) && len(encode) == 4
+//@   at_call unicode/utf8.EncodeRune : arg1 >= 65536 ==> index >= 2 && input[index-2] >= 0xD800 && input[index-2] <= 0xDBFF && input[index-1] >= 0xDC00 && input[index-1] <= 0xDFFF && arg1 == (int32(input[index-2]) - 0xD800) * 0x400 + (int32(input[index-1]) - 0xDC00) + 0x10000
+//@   at_call unicode/utf8.EncodeRune : arg1 < 65536 ==> index >= 1 && arg1 == int32(input[index-1]) && !(input[index-1] >= 0xD800 && input[index-1] <= 0xDFFF)
